@@ -158,6 +158,7 @@ func (c *Ctx) RunDocs(fams []string, fn DocFn) {
 			workload.W1First(sink)
 			workload.W1RL(sink)
 			workload.W1Len(sink)
+			workload.W1Uni(sink)
 			workload.W7LongPositionsInDocs(sink)
 		case "W2T":
 			workload.W2T(c.Thorough(), sink)
